@@ -507,8 +507,8 @@ def _reg_header_lexer(L, ascii_only, tier):
     return _ob
 
 
-_reg_header_lexer(18, True, "quick")
-_reg_header_lexer(6, False, "quick")
+HEADER_LEXER_ASCII = _reg_header_lexer(18, True, "quick")
+HEADER_LEXER_UTF8 = _reg_header_lexer(6, False, "quick")
 _reg_header_lexer(34, True, "thorough")
 _reg_header_lexer(8, False, "thorough")
 
